@@ -204,6 +204,14 @@ pub fn mutate(w: &Witness, f: &Fault, site: (usize, usize, Option<usize>)) -> Mu
 /// Feeds the stream to real validators the way the dispatcher does: one validator per link id (per FEE id in
 /// stave mode), packets in file order. Returns all error messages (and the first panic).
 pub fn run_dispatched(packets: &[(u64, PacketT)], mode: Mode) -> (Vec<String>, Option<String>) {
+    run_dispatched_cfg(packets, mode, false)
+}
+
+/// `custom`: the same mode with a custom-checks file in force that only states what the witnesses satisfy anyway
+/// (`rdh_version = 7`); every documented violation must still be found where it is (the validators are then built
+/// along their "custom checks" paths).
+pub fn run_dispatched_cfg(packets: &[(u64, PacketT)], mode: Mode, custom: bool) -> (Vec<String>, Option<String>) {
+    let cfg = if custom { val::cfg(&val::CfgKey { mode: Some(mode), rdh_version: Some(7), ..Default::default() }) } else { val::mode_cfg(mode) };
     let mut groups: BTreeMap<u32, Vec<val::RawPacket>> = BTreeMap::new();
     for (off, p) in packets {
         let id = if mode == Mode::AllStave { p.packet.rdh.fee_id as u32 } else { p.packet.rdh.link_id as u32 };
@@ -212,7 +220,7 @@ pub fn run_dispatched(packets: &[(u64, PacketT)], mode: Mode) -> (Vec<String>, O
     let mut msgs = Vec::new();
     let mut panic = None;
     for (_, g) in groups {
-        let o = val::validate_link(val::mode_cfg(mode), &g);
+        let o = val::validate_link(cfg, &g);
         msgs.extend(o.errors());
         if panic.is_none() {
             panic = o.panic;
@@ -403,6 +411,12 @@ pub fn run(tier: Tier) -> i32 {
         let m = mutate(j.w, j.f, j.site);
         let (msgs, panic) = run_dispatched(&m.packets, j.mode);
         let mut r = judge(j.f, j.mode, &m, &msgs, &panic);
+        if r.is_none() {
+            // the same with a custom-checks file in force (wave 23: a validator built along its custom-checks path
+            // had lost the target's rules)
+            let (msgs_c, panic_c) = run_dispatched_cfg(&m.packets, j.mode, true);
+            r = judge(j.f, j.mode, &m, &msgs_c, &panic_c).map(|(sig, d)| (format!("custom-checks-file:{sig}"), format!("{d} [with a custom-checks file `rdh_version = 7`]")));
+        }
         if r.is_none() && j.cli {
             r = cli_run(j.f, j.mode, &m);
         }
@@ -417,7 +431,7 @@ pub fn run(tier: Tier) -> i32 {
             rep.violation(Violation {
                 signature: sig.clone(),
                 description: format!("{d} [witness {}]", j.w.name),
-                replay: json!({"mode": j.mode.name(), "fault": j.f.name, "witness": j.w.name, "site": format!("{:?}", j.site), "stream_hex": bytes_hex}),
+                replay: json!({"mode": j.mode.name(), "fault": j.f.name, "witness": j.w.name, "site": format!("{:?}", j.site), "stream_hex": bytes_hex, "custom": sig.starts_with("custom-checks-file:")}),
             });
         }
     }
@@ -507,8 +521,10 @@ pub fn replay(v: &serde_json::Value) -> i32 {
         groups.entry(id).or_default().push((bytes[w.offset as usize..w.offset as usize + 64].to_vec(), bytes[w.payload.0..w.payload.1].to_vec(), w.offset));
     }
     println!("REPLAY: messages of mode {} for fault {} at {}:", mode.name(), r["fault"], r["site"]);
+    let custom = r["custom"].as_bool().unwrap_or(false);
+    let cfg = if custom { val::cfg(&val::CfgKey { mode: Some(mode), rdh_version: Some(7), ..Default::default() }) } else { val::mode_cfg(mode) };
     for (_, g) in groups {
-        let o = val::validate_link(val::mode_cfg(mode), &g);
+        let o = val::validate_link(cfg, &g);
         for e in o.errors() {
             println!("  {}", e.lines().next().unwrap_or(""));
         }
